@@ -3,6 +3,8 @@
 // XKCP implementation. This package is experimental and unoptimized.
 package cyclist
 
+import "hop.computer/hop/pkg/vt"
+
 // Phase is a enum used to represent internal state of Cyclist
 type Phase int
 
@@ -229,6 +231,9 @@ func (c *Cyclist) squeezeAny(y []byte, cu byte) {
 }
 
 func (c *Cyclist) down(x []byte, cd byte) {
+	if vt.On {
+		vt.Emit("cy.down", "o", vt.ID(c), "c", int(cd), "n", len(x), "mode", int(c.mode), "ph", int(c.phase), "x", vt.Bytes(x), "pre", vt.Words(c.s[:]))
+	}
 	c.stateAddBytes(x)
 	c.stateAddByte(0x01, len(x))
 	if c.mode == Hash {
@@ -236,15 +241,27 @@ func (c *Cyclist) down(x []byte, cd byte) {
 	}
 	c.stateAddByte(cd, fB-1)
 	c.phase = Down
+	if vt.On {
+		vt.Emit("cy.down.done", "o", vt.ID(c), "post", vt.Words(c.s[:]))
+	}
 }
 
 func (c *Cyclist) up(y []byte, cu byte) {
+	if vt.On {
+		vt.Emit("cy.up", "o", vt.ID(c), "c", int(cu), "n", len(y), "mode", int(c.mode), "ph", int(c.phase), "pre", vt.Words(c.s[:]))
+	}
 	if c.mode != Hash {
 		c.stateAddByte(cu, fB-1)
+	}
+	if vt.On {
+		vt.Emit("cy.f", "o", vt.ID(c), "in", vt.Words(c.s[:]))
 	}
 	c.f()
 	c.phase = Up
 	c.stateCopyOut(y)
+	if vt.On {
+		vt.Emit("cy.up.done", "o", vt.ID(c), "post", vt.Words(c.s[:]), "y", vt.Bytes(y))
+	}
 }
 
 // Absorb absorbs the entirety of x.
